@@ -366,6 +366,7 @@ def corpus(c, small=False):
     T = TLS
     s = [Schema("cases", [T + "/cases.tl"], tl2="*", sanity=True, bytes_wl="cases_bytes."),
          Schema("casesns", [T + "/cases.tl"], tl2="", sanity=False)]
+    s.append(Schema("zs", [os.path.join(ROOT, "schemas", "zerosize.tl")], tl2="", sanity=True))
     if c.thorough and not small:
         s += [Schema("gold", [T + "/goldmaster.tl", T + "/goldmaster2.tl", T + "/goldmaster3.tl"], tl2="*", sanity=True, split=True,
                      bytes_wl="ch_proxy.,ab.")]
@@ -437,3 +438,26 @@ def x1_lines(sc, rng, per, big=False, mutants=1, valid=True):
 def outputs(a):
     """{'w1': hex, 'w1b': hex, ...} from an `ok n k=v …` answer"""
     return dict(p.split("=", 1) for p in a.split(" ")[2:] if "=" in p)
+
+
+def certificates(c, model, sc):
+    """T3: evaluate the decidable hypotheses of the TL1 theorems on the exported descriptor, per factory item.
+    Returns {instance idx: {closed, wf, productive, rt, min4, nodict, nobit}} and records them in the evidence."""
+    from vlib.core import run_lines
+    lines = ["codec.cert %s %d" % (sc.sid, inst["idx"]) for inst, it in sc.items]
+    out = run_lines(model, lines, prefix=[sc.desc_line()])
+    res = {}
+    for (inst, it), a in zip(sc.items, out):
+        if not a.startswith("ok "):
+            c.proof_failures.append({"stage": "certificate", "schema": sc.sid, "type": inst["tlname"], "detail": a})
+            continue
+        res[inst["idx"]] = {k: v == "1" for k, v in (p.split("=") for p in a.split(" ")[1:])}
+    tot = c.extra.setdefault("certificates", {"evaluated": 0, "wf": 0, "productive": 0, "roundtrip_guard": 0, "canonical_guard": 0})
+    for idx, r in res.items():
+        tot["evaluated"] += 1
+        tot["wf"] += r["wf"]
+        tot["productive"] += r["productive"]
+        tot["roundtrip_guard"] += r["closed"] and r["rt"] and (r["min4"] or not sc.sanity)
+        tot["canonical_guard"] += r["closed"] and r["nodict"] and r["nobit"]
+    sc.certs = res
+    return res
